@@ -337,6 +337,8 @@ func init() {
 				{Name: "large-payload-malformations", H: c15Malformations(bigSeeds(), 1, []int{0, 12}), Bound: 1, Isolate: true,
 					Rule: "the large-payload seeds x every single-field malformation x {default, trace, error}"},
 			}
+			sp = append(sp, mc.Space{Name: "jpeg-marker-structures", H: c15Seeds(jpegStructureSeeds(), mcfg), NoLevels: true, Isolate: true,
+				Rule: "the JPEG marker-structure streams (bare SOI / EOI between segments, metadata after an EOI, stand-alone markers TEM / RSTn before the first table) x every JPEG entry point x the configuration sweep"})
 			sp = append(sp, mc.Space{Name: "cr3-trees", H: c15Trees(mcfg), Bound: mb, Isolate: true,
 				Rule: "the CR3 box-tree generator of C11 (payload size menus, skeleton variants, unknown boxes, 64-bit sizes, many ftyp brands, metadata children with content too short for their type; all sizes honest) x both byte orders x Decode, DecodeCR3, PreviewCR3, isobmff.Reader x the configuration sweep"})
 			return sp
